@@ -578,4 +578,5 @@ fn vint_encode_and_decode_test() {
 
 // Verification hook (inert unless built by `cargo kani`, which sets --cfg kani).
 #[cfg(kani)]
+#[rustfmt::skip] // the module file only exists in the verification scratch tree
 mod verif_kani;
